@@ -5,6 +5,7 @@ import (
 	"bytes"
 	"encoding/hex"
 	"fmt"
+	"hash"
 	"strings"
 	"testing"
 
@@ -298,6 +299,207 @@ func TestMD4ReadInterleaveExhaustive(t *testing.T) {
 	}, checkInterleave, readThenOp)
 }
 
+// ---- md4-large (deterministic) ------------------------------------------------
+//
+// The random sub-checks keep messages short so that many of them fit the time
+// budget; this one walks the lengths at which a too-narrow bit or byte counter
+// wraps (2^13 bytes = 2^16 bits, 2^16 bytes, ... ) one-shot and streamed in
+// several chunk sizes. Message bytes are a fixed function of the position, so a
+// case is fully described by (length, chunk size).
+
+type largeCase struct {
+	Len   int64 `json:"len"`
+	Chunk int   `json:"chunk"` // 0: the whole message in one call (md4.Sum and New/Write/Sum/HexSum)
+}
+
+func largeFill(b []byte, at int64) {
+	for i := range b {
+		p := at + int64(i)
+		b[i] = byte(p*131 + p>>8 + p>>17)
+	}
+}
+
+func checkLarge(c largeCase) []vf.Finding {
+	if c.Chunk <= 0 {
+		m := make([]byte, c.Len)
+		largeFill(m, 0)
+		return checkOneshot(msgCase{m})
+	}
+	h := md4.New()
+	ref := xmd4.New()
+	buf := make([]byte, c.Chunk)
+	for at := int64(0); at < c.Len; at += int64(c.Chunk) {
+		b := buf
+		if rest := c.Len - at; rest < int64(len(b)) {
+			b = b[:rest]
+		}
+		largeFill(b, at)
+		if n, err := h.Write(b); n != len(b) || err != nil {
+			return []vf.Finding{vf.F("md4.Write", "short-write", "at %d: n=%d err=%v len=%d", at, n, err, len(b))}
+		}
+		ref.Write(b)
+	}
+	want := ref.Sum(nil)
+	if got := h.Sum(); !bytes.Equal(got[:], want) {
+		return []vf.Finding{vf.F("md4.Write", "chunking-changes-digest", "len %d in writes of %d: got %x want %x", c.Len, c.Chunk, got, want)}
+	}
+	if got := h.HexSum(); got != hex.EncodeToString(want) {
+		return []vf.Finding{vf.F("md4.HexSum", "hex-form-differs", "len %d in writes of %d: got %s want %x", c.Len, c.Chunk, got, want)}
+	}
+	return nil
+}
+
+func TestMD4Large(t *testing.T) {
+	s := vf.Begin(t, P, "md4-large")
+	s.SetExhaustive()
+	maxPow := vf.Size(20, 24)
+	s.Note("lengths 2^k-1, 2^k, 2^k+1 for k = 13..%d (8 KiB .. %d MiB), each one-shot and streamed in writes of 61, 64, 4095 and len/2+1 bytes; thorough: also 2^29 and 2^32 bits' worth of bytes (+-) streamed", maxPow, (1<<maxPow)>>20)
+	vf.Enum(s, func(yield func(largeCase)) {
+		for k := 13; k <= maxPow; k++ {
+			for d := int64(-1); d <= 1; d++ {
+				n := int64(1)<<k + d
+				yield(largeCase{n, 0})
+				for _, ch := range []int{61, 64, 4095, int(n/2 + 1)} {
+					yield(largeCase{n, ch})
+				}
+			}
+		}
+		if vf.Thorough() {
+			// 2^32 bits = 512 MiB: the low word of the 64-bit length field wraps
+			for _, n := range []int64{1<<26 + 3, 1<<29 - 1, 1 << 29, 1<<29 + 65} {
+				yield(largeCase{n, 1<<20 + 3})
+			}
+		}
+	}, checkLarge, nil)
+}
+
+// ---- md4-instances (several live hashes, interleaved) -------------------------------
+//
+// Every other sub-check finishes with one hash before it creates the next. Here
+// two or three hashes are alive at once, are written to, read and re-created in
+// an interleaved order, with one-shot md4.Sum calls in between: each must behave
+// as if it were alone.
+
+type instOp struct {
+	Inst int    `json:"inst"`
+	Kind string `json:"op"` // w, sum, hex, new (re-create this instance), oneshot (package-level md4.Sum)
+	Data vf.Hex `json:"data,omitempty"`
+}
+type instCase struct {
+	N   int      `json:"instances"`
+	Ops []instOp `json:"ops"`
+}
+
+func instKinds(ops []instOp) string {
+	var sb strings.Builder
+	for _, o := range ops {
+		if o.Kind == "w" || o.Kind == "oneshot" {
+			fmt.Fprintf(&sb, "%d:%s%d ", o.Inst, o.Kind, len(o.Data))
+		} else {
+			fmt.Fprintf(&sb, "%d:%s ", o.Inst, o.Kind)
+		}
+	}
+	return sb.String()
+}
+
+func checkInstances(c instCase) []vf.Finding {
+	if c.N < 1 || c.N > 8 {
+		return []vf.Finding{vf.F("harness", "bad-case", "%d instances", c.N)}
+	}
+	libs := make([]*md4.MD4, c.N)
+	refs := make([]hash.Hash, c.N)
+	for i := range libs {
+		libs[i], refs[i] = md4.New(), xmd4.New()
+	}
+	read := func(i, at int, what string) []vf.Finding {
+		want := refs[i].Sum(nil)
+		if what == "hex" {
+			if got := libs[i].HexSum(); got != hex.EncodeToString(want) {
+				return []vf.Finding{vf.F("md4.HexSum", "instances-not-independent", "op %d, instance %d of %d: got %s want %x; ops=%s", at, i, c.N, got, want, instKinds(c.Ops))}
+			}
+			return nil
+		}
+		if got := libs[i].Sum(); !bytes.Equal(got[:], want) {
+			return []vf.Finding{vf.F("md4.Sum", "instances-not-independent", "op %d, instance %d of %d: got %x want %x; ops=%s", at, i, c.N, got, want, instKinds(c.Ops))}
+		}
+		return nil
+	}
+	for at, o := range c.Ops {
+		if o.Inst < 0 || o.Inst >= c.N {
+			return []vf.Finding{vf.F("harness", "bad-case", "op %d addresses instance %d of %d", at, o.Inst, c.N)}
+		}
+		switch o.Kind {
+		case "w":
+			libs[o.Inst].Write(o.Data)
+			refs[o.Inst].Write(o.Data)
+		case "new":
+			libs[o.Inst], refs[o.Inst] = md4.New(), xmd4.New()
+		case "oneshot":
+			if got, want := md4.Sum(o.Data), refcrypto.MD4(o.Data); got != want {
+				return []vf.Finding{vf.F("md4.Sum", "instances-not-independent", "op %d, one-shot over %d bytes while %d hashes are live: got %x want %x; ops=%s", at, len(o.Data), c.N, got, want, instKinds(c.Ops))}
+			}
+		case "sum", "hex":
+			if fs := read(o.Inst, at, o.Kind); fs != nil {
+				return fs
+			}
+		}
+	}
+	for i := range libs {
+		if fs := read(i, len(c.Ops), "sum"); fs != nil {
+			return fs
+		}
+	}
+	return nil
+}
+
+// interleaved: some instance is used, then another one, then the first again
+func instInterleaved(c instCase) bool {
+	last := map[int]int{}
+	for at, o := range c.Ops {
+		if o.Kind == "oneshot" {
+			continue
+		}
+		if p, ok := last[o.Inst]; ok {
+			for q := p + 1; q < at; q++ {
+				if c.Ops[q].Inst != o.Inst || c.Ops[q].Kind == "oneshot" {
+					return true
+				}
+			}
+		}
+		last[o.Inst] = at
+	}
+	return false
+}
+
+func TestMD4Instances(t *testing.T) {
+	s := vf.Begin(t, P, "md4-instances")
+	vf.Rapid(s, vf.N(8000, 80000), func(t *rapid.T) instCase {
+		c := instCase{N: rapid.IntRange(2, 3).Draw(t, "instances")}
+		n := rapid.IntRange(2, 12).Draw(t, "nops")
+		for i := 0; i < n; i++ {
+			o := instOp{Inst: rapid.IntRange(0, c.N-1).Draw(t, "inst")}
+			switch rapid.IntRange(0, 9).Draw(t, "kind") {
+			case 0, 1, 2, 3, 4:
+				o.Kind = "w"
+				ln := genLen(t, 200)
+				o.Data = rapid.SliceOfN(rapid.Byte(), ln, ln).Draw(t, "data")
+			case 5, 6:
+				o.Kind = "sum"
+			case 7:
+				o.Kind = "hex"
+			case 8:
+				o.Kind = "new"
+			default:
+				o.Kind = "oneshot"
+				ln := genLen(t, 200)
+				o.Data = rapid.SliceOfN(rapid.Byte(), ln, ln).Draw(t, "data")
+			}
+			c.Ops = append(c.Ops, o)
+		}
+		return c
+	}, checkInstances, instInterleaved)
+}
+
 // ---- nt / lm / dcc / dcc2 / hashcat forms -----------------------------------
 
 type pwCase struct {
@@ -333,6 +535,9 @@ func TestNT(t *testing.T) {
 
 func genLMPassword(t *rapid.T) string {
 	n := rapid.IntRange(0, 20).Draw(t, "len")
+	if rapid.IntRange(0, 11).Draw(t, "lenClass") == 11 {
+		n = rapid.IntRange(21, 300).Draw(t, "longLen")
+	}
 	b := make([]byte, n)
 	for i := range b {
 		b[i] = byte(rapid.IntRange(1, 0x7f).Draw(t, "ch"))
@@ -472,4 +677,22 @@ func TestDCC2DefaultRounds(t *testing.T) {
 		r := rapid.SampledFrom([]int{10240, 10239, 10241, 4096, 1000}).Draw(t, "rounds")
 		return pwCase{Password: genPassword(t), User: genUser(t), Rounds: r}
 	}, checkDCC2, func(c pwCase) bool { return c.Rounds > 1 })
+}
+
+// Iteration counts at which a 16-bit count wraps, and one well beyond. These are
+// expensive (four PBKDF2 runs per case), so they are a handful of fixed cases;
+// password and user vary with the case so that no two share a DCC input.
+func TestDCC2LargeRounds(t *testing.T) {
+	s := vf.Begin(t, P, "dcc2-large-rounds")
+	s.SetExhaustive()
+	rounds := []int{65535, 65536, 65537, 100000}
+	if vf.Thorough() {
+		rounds = append(rounds, 131071, 131073, 262144, 1000003)
+	}
+	s.Note("rounds %v through all three entry points", rounds)
+	vf.Enum(s, func(yield func(pwCase)) {
+		for i, r := range rounds {
+			yield(pwCase{Password: fmt.Sprintf("P\u00e4ss%dw\u00f6rd", i), User: fmt.Sprintf("Us\u00e9r%d", r), Rounds: r})
+		}
+	}, checkDCC2, nil)
 }
